@@ -8,4 +8,6 @@ cd /verif/probes/sendsync && cargo check --offline
 cd /verif/harness
 cargo +nightly miri setup >/dev/null 2>&1 || echo "warning: cargo miri setup failed (engine B will report a harness error)"
 MIRIFLAGS=-Zmiri-deterministic-floats cargo +nightly miri run --release --offline -q -- nothing >/dev/null 2>&1 || true
+# engine C: the harness against the instrumented shadow package (nightly toolchain, shuttle)
+cd /verif && ./check prebuild || echo "warning: engine C prebuild failed (the checks will report engine C as unavailable)"
 echo "setup done"
